@@ -86,7 +86,7 @@ ZoneOK(a) ==
     ELSE /\ a.zlit = <<>> /\ a.zsign \in {1, -1} /\ a.zh \in 0..23 /\ a.zm \in 0..59
          /\ a.zcolon = (IF a.style = "iso" THEN 1 ELSE 0)
 FieldsOK(a) ==
-    /\ a.style \in Formats /\ a.Y \in 1970..9999 /\ a.M \in 1..12 /\ a.D >= 1 /\ a.D <= DaysInMonth(a.Y, a.M)
+    /\ a.style \in Formats /\ a.Y \in 1969..9999 /\ a.M \in 1..12 /\ a.D >= 1 /\ a.D <= DaysInMonth(a.Y, a.M)
     /\ a.hh \in 0..23 /\ a.mm \in 0..59 /\ a.ss \in 0..59
     /\ a.nowd \in {0, 1} /\ (a.nowd = 1 => a.style = "rfc822")
     /\ IF a.dateonly = 1
@@ -133,6 +133,18 @@ Init(d, s, ms, obs) ==
     /\ Chk(InRange(d, s, ms))
     /\ Chk(ObsIs(obs, d, s, ms))
     /\ cur' = [has |-> TRUE, d |-> d, s |-> s, ms |-> ms] /\ last' = NoLast
+
+(* aws_date_time_init_epoch_secs with a double finer than the millisecond grid: d, s and us microseconds.  How the       *)
+(* fraction is cut to milliseconds is not documented (down or to the nearest), so the instant the three epoch views show  *)
+(* may be either neighbour on the millisecond grid - but they must show the SAME instant, within a millisecond of the      *)
+(* input.  The calendar accessors at such an instant are left open, and nothing is formatted from it (cur stays empty).    *)
+InitU(d, s, us, o) ==
+    /\ Chk(InRange(d, s, 0) /\ s < 86399 /\ us \in 0..999999)
+    /\ LET fl == s * 1000 + us \div 1000
+       IN /\ Chk(o.emd = d /\ o.emms \in {fl, fl + 1})
+          /\ Chk(o.esd = d /\ o.ess * 1000 + o.esms = o.emms)
+          /\ Chk(d <= NanoDays => (o.end = d /\ o.ens * 1000 + o.enn \div 1000000 = o.emms /\ o.enn % 1000000 = 0))
+    /\ cur' = NoCur /\ last' = NoLast
 
 (* aws_date_time_to_utc_time_str / _short_str into a buffer of capacity cap that already holds pre.  "If buffer is  *)
 (* too small, it will return AWS_OP_ERR": whether room for a terminating NUL is required is not stated.             *)
